@@ -57,16 +57,47 @@ func resourceBomb(src string) bool {
 	return strings.Count(src, "range") > 1 || strings.Count(src, "{% for") > 3
 }
 
-// selfRecursiveMacro: between a macro declaration and the next endmacro the macro's own name is
-// called (textually). Unconditional recursion of this kind ends in a fatal stack overflow.
+// selfRecursiveMacro: the macros of the source can call each other in a cycle (textually: the
+// text between a macro declaration and the next endmacro mentions a macro's name followed by an
+// opening parenthesis). Unconditional recursion of this kind ends in a fatal stack overflow.
 func selfRecursiveMacro(src string) bool {
+	type decl struct{ name, body string }
+	var decls []decl
 	for _, loc := range macroDecl.FindAllStringSubmatchIndex(src, -1) {
-		name := src[loc[2]:loc[3]]
 		rest := src[loc[1]:]
 		if end := strings.Index(rest, "endmacro"); end >= 0 {
 			rest = rest[:end]
 		}
-		if strings.Contains(rest, name+"(") || strings.Contains(rest, name+" (") {
+		decls = append(decls, decl{src[loc[2]:loc[3]], rest})
+	}
+	calls := map[string][]string{}
+	for _, d := range decls {
+		for _, e := range decls {
+			if strings.Contains(d.body, e.name+"(") || strings.Contains(d.body, e.name+" (") {
+				calls[d.name] = append(calls[d.name], e.name)
+			}
+		}
+	}
+	state := map[string]int{}
+	var visit func(n string) bool
+	visit = func(n string) bool {
+		switch state[n] {
+		case 1:
+			return true
+		case 2:
+			return false
+		}
+		state[n] = 1
+		for _, m := range calls[n] {
+			if visit(m) {
+				return true
+			}
+		}
+		state[n] = 2
+		return false
+	}
+	for _, d := range decls {
+		if visit(d.name) {
 			return true
 		}
 	}
